@@ -26,6 +26,8 @@ type C13 struct {
 	consumed   map[originKey]int // → step
 	foldSeen   map[originKey]bool
 	bound      map[[2]string]string // (class id, contract) → batch denom
+	allowed    map[string]bool      // ghost allow list: lower-cased names, driven by successful governance messages
+	listOps    int
 	issuing    int
 	replays    int
 	receives   int
@@ -36,10 +38,13 @@ type C13 struct {
 }
 
 func NewC13() *C13 {
-	return &C13{Base: Base{"C13"}, consumed: map[originKey]int{}, foldSeen: map[originKey]bool{}, bound: map[[2]string]string{}, nontrivial: strset{}}
+	return &C13{Base: Base{"C13"}, consumed: map[originKey]int{}, foldSeen: map[originKey]bool{}, bound: map[[2]string]string{}, allowed: map[string]bool{}, nontrivial: strset{}}
 }
 
 func (m *C13) OnGenesis(e *eng.Engine, g map[string]json.RawMessage, s *obs.Snapshot) {
+	for n := range s.V().BridgeChains {
+		m.allowed[strings.ToLower(n)] = true
+	}
 	var eco map[string]json.RawMessage
 	if json.Unmarshal(g["ecocredit"], &eco) != nil {
 		return
@@ -141,6 +146,33 @@ func (m *C13) AfterTx(e *eng.Engine, t *eng.TxRec) {
 		}
 		return
 	}
+	// allow list: what governance's successful messages say must be what the table says
+	preAllowed := map[string]bool{}
+	for k := range m.allowed {
+		preAllowed[k] = true
+	}
+	for _, msg := range t.Msgs {
+		switch x := msg.(type) {
+		case *basetypes.MsgAddAllowedBridgeChain:
+			m.allowed[strings.ToLower(x.ChainName)] = true
+			m.listOps++
+		case *basetypes.MsgRemoveAllowedBridgeChain:
+			delete(m.allowed, strings.ToLower(x.ChainName))
+			m.listOps++
+		}
+	}
+	for n := range post.BridgeChains {
+		if !m.allowed[n] {
+			e.Violate("C13", "allow-list-diverged", fmt.Sprintf("%s: chain %q is in the allowed-bridge-chain table but governance's successful add/remove messages leave it not allowed", where, n))
+			m.allowed[n] = true // report once
+		}
+	}
+	for n := range m.allowed {
+		if !post.BridgeChains[n] {
+			e.Violate("C13", "allow-list-diverged", fmt.Sprintf("%s: chain %q was added by governance and never removed but is missing from the allowed-bridge-chain table", where, n))
+			delete(m.allowed, n)
+		}
+	}
 	if len(t.Msgs) != 1 {
 		// multi-message transactions: keep the ghost in sync from the state (no verdicts)
 		for _, o := range post.OriginTxs {
@@ -192,7 +224,7 @@ func (m *C13) AfterTx(e *eng.Engine, t *eng.TxRec) {
 		}
 	case *basetypes.MsgBridgeReceive:
 		m.receives++
-		if !pre.BridgeChains[strings.ToLower(x.OriginTx.Source)] {
+		if !pre.BridgeChains[strings.ToLower(x.OriginTx.Source)] || !preAllowed[strings.ToLower(x.OriginTx.Source)] {
 			e.Violate("C13", "source-not-allowed", fmt.Sprintf("%s: BridgeReceive from source %q succeeded but it is not an allowed bridge chain", where, x.OriginTx.Source))
 		}
 		m.consume(e, t, x.ClassId, x.OriginTx, "BridgeReceive")
@@ -232,7 +264,7 @@ func (m *C13) AfterTx(e *eng.Engine, t *eng.TxRec) {
 		}
 	case *basetypes.MsgBridge:
 		m.bridges++
-		if !pre.BridgeChains[strings.ToLower(x.Target)] {
+		if !pre.BridgeChains[strings.ToLower(x.Target)] || !preAllowed[strings.ToLower(x.Target)] {
 			e.Violate("C13", "target-not-allowed", fmt.Sprintf("%s: Bridge to target %q succeeded but it is not an allowed bridge chain", where, x.Target))
 		}
 		type ev struct{ contract, amount, denom string }
@@ -319,6 +351,7 @@ func (m *C13) Finish(e *eng.Engine, cov map[string]interface{}) {
 	cov["replays_of_consumed_origin_tx_rejected"] = m.replays
 	cov["bridge_receives_accepted"] = m.receives
 	cov["bridges_accepted"] = m.bridges
+	cov["allow_list_changes_tracked"] = m.listOps
 	cov["casefold_duplicate_issuances"] = m.casefold
 	cov["contracts_bound"] = len(m.bound)
 	cov["samples"] = m.samples
